@@ -22,6 +22,8 @@ import (
 	"strings"
 	"sync"
 
+	dubbocommon "dubbo.apache.org/dubbo-go/v3/common"
+	dubboconstant "dubbo.apache.org/dubbo-go/v3/common/constant"
 	"dubbo.apache.org/dubbo-go/v3/common/extension"
 	"dubbo.apache.org/dubbo-go/v3/filter"
 	"dubbo.apache.org/dubbo-go/v3/protocol"
@@ -63,12 +65,36 @@ func (d *dubboTransactionFilter) Invoke(ctx context.Context, invoker protocol.In
 		invocation.SetAttachment(constant.SeataXidKey, xid)
 		// dubbo java
 		invocation.SetAttachment(constant.XidKey, xid)
+	} else if isConsumerSide(invoker) {
+		// the caller runs without a global transaction (none, or suspended by
+		// NotSupported / Never / Supports): an xid among the attachments is the
+		// one the caller was itself called with - dubbo-go copies the attachments
+		// of an incoming call onto the calls made with its context - and must
+		// not travel on to the callee
+		if rpcXid != "" {
+			for _, key := range []string{constant.SeataXidKey, strings.ToLower(constant.SeataXidKey), constant.XidKey, strings.ToLower(constant.XidKey)} {
+				delete(invocation.Attachments(), key)
+			}
+		}
 	} else if rpcXid != xid {
 		ctx = tm.InitSeataContext(ctx)
 		tm.SetXID(ctx, rpcXid)
 	}
 	return invoker.Invoke(ctx, invocation)
 	// todo why should unbind xid???
+}
+
+// isConsumerSide tells whether the filter runs in front of a reference (an
+// outgoing call); the url of an exported service says "provider"
+func isConsumerSide(invoker protocol.Invoker) bool {
+	if invoker == nil {
+		return false
+	}
+	url := invoker.GetURL()
+	if url == nil {
+		return false
+	}
+	return url.GetParam(dubboconstant.SideKey, "") == dubbocommon.RoleType(dubbocommon.CONSUMER).Role()
 }
 
 func (*dubboTransactionFilter) OnResponse(ctx context.Context, result protocol.Result, invoker protocol.Invoker, invocation protocol.Invocation) protocol.Result {
